@@ -15,7 +15,7 @@ from fractions import Fraction
 
 from run import REPO, VERIF, Broken, Violation
 
-GEN = ["ZipBomb", "ZipOpenSites"]
+GEN = ["ZipBomb", "ZipOpenSites", "PyZipBomb"]
 RULE = ("(limits, entries) on a boundary lattice: for each of the six thresholds (entry count, single size, "
         "entry ratio, total size, total ratio, zero-compressed) a container placed at threshold-1/0/+1, alone and "
         "combined in pairs, plus directory entries with wild sizes, plus sizes where size/csize lies within 1 ulp "
